@@ -7,10 +7,11 @@ model exhibits. What is logic — and what these theorems are about — is the r
 every natively recursive function on the grid's paths as a function of its input
 (`Marwood.Depth`, tied to the code by the depth counters of the hook `verif::depth`).
 
-* `closedForm_eq_model` — for each of the 7 instrumented functions and each of the 4 nesting
+* `closedForm_eq_model` — for each of the 7 instrumented functions and each of the 6 nesting
   directions the model's depth on `nest dir n` equals a closed form, for every `n`.
-* T19.b — the loop directions: along cdr the reader, `get_as_cell`, the marker, `equal?` and the
-  printer never hold more than 4 frames, whatever the length.
+* T19.b — the loop directions: along cdr (a list of atoms, a list of shallow aggregates, a dotted
+  list) the reader, `get_as_cell`, the marker, `equal?` and the printer never hold more than 6
+  frames, whatever the length.
 * T19.u — every other (function, direction): at least `n` frames at nesting `n`; no finite native
   stack is enough, so the property cannot hold for a scenario whose path contains such a pair
   (these are the known findings; the child processes exhibit the aborts).
@@ -44,6 +45,19 @@ theorem parse_cdr (n : Nat) : parseDepth (nestToks .cdr n) = some (if n = 0 then
     (by simp only [parseFuel, List.length_cons, length_atoms]; omega)
   simp only [parseDepth, nestToks, h]; simp
 
+theorem parse_cdrPairs (n : Nat) :
+    parseDepth (nestToks .cdrPairs n) = some (if n = 0 then 2 else 6) := by
+  have h := parseD_cdrPairs n (parseFuel (.lp :: pairsToks n [.rp]))
+    (by have := (length_pairsToks n [.rp]).2
+        simp only [parseFuel, List.length_cons, List.length_nil] at *; omega)
+  simp only [parseDepth, nestToks, h]; simp
+
+theorem parse_cdrDotted (n : Nat) :
+    parseDepth (nestToks .cdrDotted n) = some (if n = 0 then 1 else 4) := by
+  have h := parseD_cdrDotted n (parseFuel (dottedToks n))
+    (by simp only [parseFuel, length_dottedToks]; split <;> omega)
+  simp only [parseDepth, nestToks, h]; simp
+
 /-- the model of every instrumented function on every family has the closed form the driver
     answers with — for every `n` -/
 theorem closedForm_eq_model (f : Fn) (d : Dir) (n : Nat) :
@@ -55,29 +69,36 @@ theorem closedForm_eq_model (f : Fn) (d : Dir) (n : Nat) :
       markDepth, markIn_car, markIn_cdr, markIn_vec, markIn_quote,
       equal_car, equal_cdr, equal_vec, equal_quote,
       display_car, display_cdr, display_vec, display_quote,
-      drop_car, drop_cdr, drop_vec, drop_quote] <;>
+      drop_car, drop_cdr, drop_vec, drop_quote,
+      parse_cdrPairs, parse_cdrDotted, maybePut_cdrPairs, maybePut_cdrDotted,
+      getVal_cdrPairs, getVal_cdrDotted, markIn_cdrPairs, markIn_cdrDotted,
+      equal_cdrPairs, equal_cdrDotted, display_cdrPairs, display_cdrDotted,
+      drop_cdrPairs, drop_cdrDotted] <;>
     first
       | rfl
       | (congr 1; omega)
-      | (by_cases h : n = 0 <;> simp [h])
+      | (by_cases h : n = 0 <;> simp [h] <;> omega)
 
-/-- **T19.b** — the loop directions are bounded: along cdr the reader, `get_as_cell`, the marker,
-    `equal?` and the printer hold at most 4 native frames for a list of any length -/
+/-- **T19.b** — the loop directions are bounded: along cdr — a list of atoms, a list of shallow
+    aggregates (pairs, small vectors), a dotted list — the reader, `get_as_cell`, the marker,
+    `equal?` and the printer hold at most `loopBound = 6` native frames for a list of any length -/
 theorem T19_b_cdr (f : Fn) (d : Dir) (n : Nat) (hb : bounded f d = true) :
-    ∃ k, modelDepth f d n = some k ∧ k ≤ 4 := by
+    ∃ k, modelDepth f d n = some k ∧ k ≤ loopBound := by
   refine ⟨closedForm f d n, closedForm_eq_model f d n, ?_⟩
-  cases f <;> cases d <;> simp [bounded] at hb <;> simp only [closedForm] <;> split <;> omega
+  cases f <;> cases d <;> simp [bounded] at hb <;> simp only [closedForm, loopBound] <;>
+    split <;> omega
 
 /-- **T19.u** — every other (function, direction) needs at least `n` native frames at nesting
     depth `n`: for every stack size there is an input that exhausts it -/
 theorem T19_u_unbounded (f : Fn) (d : Dir) (n : Nat) (hb : bounded f d = false) :
     ∃ k, modelDepth f d n = some k ∧ n ≤ k := by
   refine ⟨closedForm f d n, closedForm_eq_model f d n, ?_⟩
-  cases f <;> cases d <;> simp [bounded] at hb <;> simp only [closedForm] <;> omega
+  cases f <;> cases d <;> simp [bounded] at hb <;> simp only [closedForm] <;>
+    first | omega | (split <;> omega)
 
-/-- the table `bounded` is exactly "the closed form stays below 4 for every `n`" -/
+/-- the table `bounded` is exactly "the closed form stays below `loopBound` for every `n`" -/
 theorem bounded_iff_closedForm_le (f : Fn) (d : Dir) :
-    bounded f d = true ↔ ∀ n, closedForm f d n ≤ 4 := by
+    bounded f d = true ↔ ∀ n, closedForm f d n ≤ loopBound := by
   constructor
   · intro hb n
     obtain ⟨k, hk, hle⟩ := T19_b_cdr f d n hb
@@ -87,10 +108,11 @@ theorem bounded_iff_closedForm_le (f : Fn) (d : Dir) :
     cases hb : bounded f d with
     | true => rfl
     | false =>
-      obtain ⟨k, hk, hle⟩ := T19_u_unbounded f d 5 hb
+      obtain ⟨k, hk, hle⟩ := T19_u_unbounded f d 7 hb
       rw [closedForm_eq_model] at hk
       cases hk
-      have := h 5
+      have := h 7
+      simp only [loopBound] at this
       omega
 
 /-- **T19.u (read, cdr written with dots)** — `(1 . (1 . … ()))` costs three frames per level:
@@ -123,13 +145,15 @@ theorem T19_u_compile_lambda (n : Nat) :
 
 /-- **T19.u (quote-evaluate, every direction)** — `compile_quote` stores the datum with
     `maybe_put_cell`, which recurses on car *and* cdr: even a flat list of `n` elements needs `n`
-    frames, so evaluating a quoted datum is unbounded in all four directions -/
+    frames, so evaluating a quoted datum is unbounded in all six directions -/
 theorem T19_u_quote_evaluate (d : Dir) (n : Nat) : n ≤ maybePutDepth (nest d n) := by
   cases d
   · rw [maybePut_car]; omega
   · rw [maybePut_cdr]; omega
   · rw [maybePut_vec]; omega
   · rw [maybePut_quote]; omega
+  · rw [maybePut_cdrPairs]; split <;> omega
+  · rw [maybePut_cdrDotted]; omega
 
 /-- **write, cdr direction** — every counted cluster on the path of `(write x)` for a flat list is
     bounded (marker ≤ 2, `get_as_cell` ≤ 4, printer ≤ 2 frames), and yet the scenario aborts at
@@ -169,6 +193,54 @@ theorem T19_b_flat_lists (xs : List Datum) (h : ∀ x ∈ xs, carNest x = 0) :
   have := T19_b_every_datum (Datum.ofList xs)
   omega
 
+/-- **T19.b, lists of shallow aggregates and dotted lists of any length** — a list (proper, or
+    dotted with tail `t`) whose elements are car-nested at most `k` deep holds at most a number of
+    frames that depends on `k` alone in the marker, `get_as_cell`, `equal?` (two separately built
+    copies) and the printer: the cdr spine is a loop whatever the elements and whatever ends it.
+    `k = 1`: association lists, lists of flat lists, lists of flat vectors. -/
+theorem T19_b_shallow_lists (xs : List Datum) (t : Datum) (k : Nat)
+    (h : ∀ x ∈ xs, carNest x ≤ k) (ht : carNest t ≤ k + 1) :
+    markDepth (Datum.ofListTail xs t) ≤ 2 * k + 3 ∧
+    getAsCellDepth (Datum.ofListTail xs t) ≤ 3 * k + 6 ∧
+    equalDepth (Datum.ofListTail xs t) ≤ 4 * k + 8 ∧
+    displayDepth (Datum.ofListTail xs t) ≤ 2 * k + 4 := by
+  have hc := carNest_ofListTail xs t k h ht
+  have := T19_b_every_datum (Datum.ofListTail xs t)
+  omega
+
+/-- **T19.b (cdr-of-pairs)** — the grid's list of `n` fresh aggregates `(1 . 2)`, `#(1 2)`: every
+    counted cluster on the paths of read / build / gc / equal? / write holds a constant number of
+    frames for every `n` (in particular `equal?` on two separately built copies: 5, not `2 n`),
+    while drop glue and `maybe_put_cell` need `n` -/
+theorem T19_b_cdr_of_pairs (n : Nat) :
+    parseDepth (nestToks .cdrPairs n) = some (if n = 0 then 2 else 6) ∧
+    getAsCellDepth (nest .cdrPairs n) ≤ 6 ∧ markDepth (nest .cdrPairs n) ≤ 3 ∧
+    equalDepth (nest .cdrPairs n) ≤ 5 ∧ displayDepth (nest .cdrPairs n) ≤ 3 ∧
+    n ≤ dropDepth (nest .cdrPairs n) ∧ n ≤ maybePutDepth (nest .cdrPairs n) := by
+  refine ⟨parse_cdrPairs n, ?_, ?_, ?_, ?_, ?_, ?_⟩
+  · simp only [getAsCellDepth, getVal_cdrPairs]; split <;> omega
+  · simp only [markDepth, markIn_cdrPairs]; split <;> omega
+  · simp only [equal_cdrPairs]; split <;> omega
+  · simp only [display_cdrPairs]; split <;> omega
+  · simp only [drop_cdrPairs]; split <;> omega
+  · simp only [maybePut_cdrPairs]; split <;> omega
+
+/-- **T19.b (cdr-dotted)** — `(1 … 1 . 2)` with `n` ones: the reader (through
+    `parse_improper_list_tail`), `get_as_cell` (improper-tail arm), the marker, `equal?` and the
+    printer hold at most 4 frames for every `n`; drop glue and `maybe_put_cell` need `n` -/
+theorem T19_b_cdr_dotted (n : Nat) :
+    parseDepth (nestToks .cdrDotted n) = some (if n = 0 then 1 else 4) ∧
+    getAsCellDepth (nest .cdrDotted n) ≤ 4 ∧ markDepth (nest .cdrDotted n) ≤ 2 ∧
+    equalDepth (nest .cdrDotted n) ≤ 3 ∧ displayDepth (nest .cdrDotted n) ≤ 2 ∧
+    n ≤ dropDepth (nest .cdrDotted n) ∧ n ≤ maybePutDepth (nest .cdrDotted n) := by
+  refine ⟨parse_cdrDotted n, ?_, ?_, ?_, ?_, ?_, ?_⟩
+  · simp only [getAsCellDepth, getVal_cdrDotted]; split <;> omega
+  · simp only [markDepth, markIn_cdrDotted]; split <;> omega
+  · simp only [equal_cdrDotted]; split <;> omega
+  · simp only [display_cdrDotted]; split <;> omega
+  · simp only [drop_cdrDotted]; omega
+  · simp only [maybePut_cdrDotted]; omega
+
 /-- **T19.u, every list** — destroying or storing *any* list of `n` elements (not only the
     families) needs at least `n` native frames: drop glue and `maybe_put_cell` recurse along cdr -/
 theorem T19_u_drop_put_every_list (x : Datum) :
@@ -191,7 +263,7 @@ def BoundedDepth (f : Fn) (d : Dir) : Prop := ∃ K, ∀ n k, modelDepth f d n =
 def C19_depth : Prop := ∀ f d, BoundedDepth f d
 
 theorem C19_depth_partial (f : Fn) (d : Dir) (h : bounded f d = true) : BoundedDepth f d := by
-  refine ⟨4, fun n k hk => ?_⟩
+  refine ⟨loopBound, fun n k hk => ?_⟩
   obtain ⟨k', hk', hle⟩ := T19_b_cdr f d n h
   rw [hk] at hk'; cases hk'; exact hle
 
@@ -213,6 +285,11 @@ example : modelDepth .fmt .quote 3 = some 4 := by decide
 example : parseDepth (dotToks 2 []) = some 8 := T19_u_read_dot 2
 example : compileDepth (nestLambda 1) = 7 := by decide
 example : carNest (nest .cdr 7) = 1 ∧ carNest (nest .car 7) = 7 := by decide
+example : modelDepth .equal .cdrPairs 9 = some 5 := closedForm_eq_model .equal .cdrPairs 9
+example : modelDepth .parse .cdrDotted 9 = some 4 := closedForm_eq_model .parse .cdrDotted 9
+example : bounded .equal .cdrPairs = true ∧ bounded .put .cdrDotted = false := ⟨rfl, rfl⟩
+-- the hypotheses of `T19_b_shallow_lists` hold for an association list with a dotted end
+example : carNest (Datum.ofListTail [.pair one two, .pair two one] one) ≤ 2 := by decide
 -- an error ends the parse at the depth reached so far: `(()` is incomplete
 example : parseD 10 1 [.lp, .lp, .rp] = some (4, none) := by simp [parseD, listD]
 -- `( . 1)`: a dot before any datum
